@@ -23,24 +23,11 @@ Lemma eat_tokL_eq : GrammarLax.eat_tok = Grammar.eat_tok. Proof. reflexivity. Qe
 Lemma m_endL_eq : GrammarLax.m_end = Grammar.m_end. Proof. reflexivity. Qed.
 Lemma m_identL_eq : m_identL = m_ident. Proof. reflexivity. Qed.
 
-Lemma m_ident_paramL i ts r : m_ident i ts = Some r -> m_paramL i ts = Some r.
-Proof.
-  unfold m_ident, m_paramL, ident_ok. rewrite eat_tokL_eq.
-  destruct (t_type (id_tok i) =? T_IDENT); [|discriminate].
-  destruct (str_eqb (id_value i) (t_lit (id_tok i))); [|discriminate]. exact (fun H => H).
-Qed.
+(* parameters are matched by the same function in both grammars *)
+Lemma m_paramsL_eq : m_paramsL = m_params. Proof. reflexivity. Qed.
 
 Lemma m_params_L ps : forall ts r, m_params ps ts = Some r -> m_paramsL ps ts = Some r.
-Proof.
-  induction ps as [|p ps IH]; intros ts r H; [exact H|].
-  destruct ps as [|q ps].
-  - cbn [m_params m_paramsL] in *. apply m_ident_paramL. exact H.
-  - cbn [m_params] in H. cbn [m_paramsL]. rewrite eatL_eq.
-    destruct (m_ident p ts) as [r1|] eqn:E1; [|discriminate].
-    rewrite (m_ident_paramL _ _ _ E1).
-    destruct (Grammar.eat T_COMMA r1) as [[? r2]|]; [|discriminate].
-    apply IH. exact H.
-Qed.
+Proof. intros ts r H. rewrite m_paramsL_eq. exact H. Qed.
 
 Lemma assignable_level l : assignable l = true -> 11 <= level l.
 Proof.
@@ -540,11 +527,8 @@ Definition m_ptailL (ps : list ident) (l : list token) : option (list token) :=
   end.
 
 Lemma m_paramsL_cons p ps ts :
-  m_paramsL (p :: ps) ts = match m_paramL p ts with Some r => m_ptailL ps r | None => None end.
-Proof. destruct ps; cbn [m_paramsL m_ptailL]; destruct (m_paramL p ts); reflexivity. Qed.
-
-Lemma m_paramL_mk p r : m_paramL (mk_ident p) (p :: r) = Some r.
-Proof. unfold m_paramL, mk_ident. cbn [id_tok id_value]. rewrite str_eqb_refl. apply eat_tokL_refl. Qed.
+  m_paramsL (p :: ps) ts = match m_identL p ts with Some r => m_ptailL ps r | None => None end.
+Proof. destruct ps; cbn [m_paramsL m_ptailL]; destruct (m_identL p ts); reflexivity. Qed.
 
 Lemma m_identL_mk p r : t_type p = T_IDENT -> m_identL (mk_ident p) (p :: r) = Some r.
 Proof.
@@ -555,24 +539,36 @@ Qed.
 Lemma peek_is_St_nil x c ty : peek_is (St x c []) ty = (t_type (ps_eof x) =? ty).
 Proof. reflexivity. Qed.
 
+(* the loop up to and including the closing parenthesis; without a new error every
+   parameter it has read is an IDENT token *)
 Lemma params_loop_sound : forall n acc x c l ids s', EOFX x -> EL (c :: l) ->
+  (nerr s' <= nerr x)%nat ->
   params_loop n acc (St x c l) = Some (ids, s') ->
-  exists ps c' l', ids = acc ++ ps /\ s' = St x c' l' /\ EL (c' :: l') /\ m_ptailL ps l = Some l'.
+  exists ps c' rest, ids = acc ++ ps /\ s' = St x c' rest /\ t_type c' = T_RPAREN /\ EL rest /\
+                     m_ptailL ps l = Some (c' :: rest).
 Proof.
-  induction n as [|n IH]; intros acc x c l ids s' Hx Hl H; [discriminate|].
+  induction n as [|n IH]; intros acc x c l ids s' Hx Hl Hn H; [discriminate|].
   cbn [params_loop] in H. destruct l as [|t l1].
-  - rewrite peek_is_St_nil, Hx in H. ev_in H. injection H as <- <-.
-    exists [], c, []. rewrite app_nil_r. repeat split; auto.
-  - rewrite peek_is_St in H. destruct (t_type t =? T_COMMA) eqn:Et.
-    + apply Z.eqb_eq in Et. apply EL_cons in Hl.
+  - rewrite peek_is_St_nil, Hx in H. ev_in H. unfold expect in H.
+    rewrite peek_is_St_nil, Hx in H. ev_in H. injection H as <- <-. exfalso. nl.
+  - rewrite peek_is_St in H. apply EL_cons in Hl. destruct (t_type t =? T_COMMA) eqn:Et.
+    + apply Z.eqb_eq in Et.
       assert (Hl2 : EL l1) by (eapply EL_tail; [eassumption|rewrite Et; discriminate]).
-      destruct (EL_nonnil _ Hl2) as (p & l2 & ->). cbv zeta in H. rewrite !next_St, cur_St in H.
-      apply IH in H; [|assumption|assumption].
-      destruct H as (ps & c' & l' & -> & -> & Hl' & Mp).
-      exists (mk_ident p :: ps), c', l'. repeat split; auto.
+      rewrite next_St in H.
+      destruct (expect (St x t l1) T_IDENT) as [[|] s1] eqn:Ex; cbn [negb] in H.
+      2:{ injection H as <- <-. mfwd. exfalso. nl. }
+      apply expect_true_St in Ex; [|assumption|discriminate].
+      destruct Ex as (p & l2 & -> & Hp & -> & Hl3). rewrite cur_St in H.
+      apply IH in H; [|assumption|assumption|assumption].
+      destruct H as (ps & c' & rest & -> & -> & Hc & Hr & Mp).
+      exists (mk_ident p :: ps), c', rest. repeat split; auto.
       * rewrite <- app_assoc. reflexivity.
-      * unfold m_ptailL at 1. rewrite (eatL_ok _ _ _ Et), m_paramsL_cons, m_paramL_mk. exact Mp.
-    + injection H as <- <-. exists [], c, (t :: l1). rewrite app_nil_r. repeat split; auto.
+      * unfold m_ptailL at 1. rewrite (eatL_ok _ _ _ Et), m_paramsL_cons, (m_identL_mk _ _ Hp). exact Mp.
+    + destruct (expect (St x c (t :: l1)) T_RPAREN) as [[|] s1] eqn:Ex; injection H as <- <-.
+      2:{ mfwd. exfalso. nl. }
+      apply expect_true_St in Ex; [|assumption|discriminate].
+      destruct Ex as (q & l3 & Eq & Hq & -> & Hl3). injection Eq as <- <-.
+      exists [], t, l1. rewrite app_nil_r. repeat split; auto.
 Qed.
 
 Lemma pfp_sound lf x c l ids s' : EOFX x -> EL l -> (nerr s' <= nerr x)%nat ->
@@ -584,18 +580,14 @@ Proof.
   destruct (t_type p =? T_RPAREN) eqn:Ep.
   - apply Z.eqb_eq in Ep. injection H as <- <-. rewrite next_St. exists p, l1.
     repeat split; auto. eapply EL_tail; [eassumption|rewrite Ep; discriminate].
-  - cbv zeta in H. rewrite next_St, cur_St in H. dparse1 H.
-    apply params_loop_sound in Ea; [|assumption|assumption].
-    destruct Ea as (ps & c' & l' & -> & -> & Hl' & Mp).
-    destruct (expect (St x c' l') T_RPAREN) as [[|] s1] eqn:Ex; injection H as <- <-; mfwd.
-    2:{ exfalso. nl. }
-    destruct l' as [|q l''].
-    { unfold expect in Ex. rewrite peek_is_St_nil, Hx in Ex. ev_in Ex. discriminate. }
-    apply EL_cons in Hl'.
+  - destruct (expect (St x c (p :: l1)) T_IDENT) as [[|] s1] eqn:Ex; cbn [negb] in H.
+    2:{ injection H as <- <-. mfwd. exfalso. nl. }
     apply expect_true_St in Ex; [|assumption|discriminate].
-    destruct Ex as (q' & l3 & Eq & Hq & -> & Hl3). injection Eq as <- <-.
-    exists q, l''. repeat split; auto.
-    cbn [app]. rewrite m_paramsL_cons, m_paramL_mk. exact Mp.
+    destruct Ex as (p' & l' & Eq & Hp & -> & Hl'). injection Eq as <- <-.
+    rewrite cur_St in H. apply params_loop_sound in H; [|assumption|assumption|assumption].
+    destruct H as (ps & c' & rest & -> & -> & Hc & Hr & Mp).
+    exists c', rest. repeat split; auto.
+    cbn [app]. rewrite m_paramsL_cons, (m_identL_mk _ _ Hp). exact Mp.
 Qed.
 
 Lemma prefix_cases ty h : assoc_opt prefix_table ty = Some h ->
@@ -1567,15 +1559,13 @@ Lemma m_identL_suf i ts r : m_identL i ts = Some r -> suf r ts.
 Proof. exact (m_ident_suf i ts r). Qed.
 Lemma m_endL_suf asi next ts r : GrammarLax.m_end asi next ts = Some r -> suf r ts.
 Proof. exact (m_end_suf asi next ts r). Qed.
-Lemma m_paramL_suf i ts r : m_paramL i ts = Some r -> suf r ts.
-Proof. unfold m_paramL. destruct (str_eqb _ _); [apply eat_tokL_suf|discriminate]. Qed.
 
 Lemma m_paramsL_suf ps : forall ts r, m_paramsL ps ts = Some r -> suf r ts.
 Proof.
   induction ps as [|p ps IH]; intros ts r H.
   - injection H as H. subst. apply suf_refl.
-  - rewrite m_paramsL_cons in H. destruct (m_paramL p ts) as [r1|] eqn:E; [|discriminate].
-    apply m_paramL_suf in E.
+  - rewrite m_paramsL_cons in H. destruct (m_identL p ts) as [r1|] eqn:E; [|discriminate].
+    apply m_identL_suf in E.
     destruct ps as [|q ps]; cbn [m_ptailL] in H.
     + injection H as H. subst. assumption.
     + destruct (GrammarLax.eat T_COMMA r1) as [[? r2]|] eqn:E0; [|discriminate].
